@@ -231,6 +231,7 @@ def measure(text, stop=False):
     from gherkin.parser import Parser
     from gherkin.errors import ParserError
     from gherkin.pickles.compiler import Compiler
+    bound = None
     with probe.observing() as obs:
         with StepClock() as clk:
             t0 = time.process_time()
@@ -242,9 +243,11 @@ def measure(text, stop=False):
                 Compiler().compile(d)
             except ParserError:
                 pass
+            except probe.WorkBoundExceeded as e:
+                bound = str(e)
             cpu = time.process_time() - t0
     log = obs.logs[-1]
-    return {"match_calls": log.n_match, "steps": clk.n, "cpu": cpu,
+    return {"bound": bound, "match_calls": log.n_match, "steps": clk.n, "cpu": cpu,
             "max_per_line": max(log.match_calls.values()) if log.match_calls else 0,
             "lines": len(log.reads)}
 
@@ -256,6 +259,12 @@ def run_scaling(spec, M):
         text = workloads.scaling_family(name, n)
         rows.append(measure(text))
         M.case(h64(text))
+        if rows[-1]["bound"]:
+            M.violation("scaling", {"what": "logical work bound exceeded: matcher calls far above linear in the number of lines", "family": name, "n": n,
+                                    "bound": rows[-1]["bound"], "match_calls": rows[-1]["match_calls"], "lines": rows[-1]["lines"]},
+                        {"kind": "scaling", "name": name, "N": N})
+            M.count("scaling_triples")
+            return
         M.maximum("max_matcher_calls_per_line", rows[-1]["max_per_line"])
         if rows[-1]["max_per_line"] > observe.MATCH_BUDGET:
             M.violation("G2", {"what": "matcher calls on one line exceed the budget", "family": name, "n": n,
